@@ -1726,6 +1726,7 @@ void ADFH_Put_Name(const double  pid,
   hid_t hpid;
   hid_t hid;
   char *nname, oname[ADF_NAME_LENGTH+1];
+  H5O_info_t stat;
 
   to_HDF_ID(pid,hpid);
   to_HDF_ID(id,hid);
@@ -1735,6 +1736,18 @@ void ADFH_Put_Name(const double  pid,
   if ((nname = check_name(name, err)) == NULL) return;
   if (is_link(hpid)) {
     set_error(ADFH_ERR_LINK_DATA, err);
+    return;
+  }
+  /* check that node is actually child of the parent: the link is found
+     under the parent by the node's name, which another child may have */
+#if ADFH_HDF5_HAVE_112_API
+  if (H5Oget_info_by_name3(hid, ".", &stat, H5O_INFO_BASIC, H5P_DEFAULT) < 0 ||
+    !H5Literate2(hpid, H5_INDEX_CRT_ORDER, H5_ITER_INC, NULL, compare_children, (void *)&stat)){
+#else
+  if (H5Oget_info_by_name(hid, ".", &stat, H5P_DEFAULT) < 0 ||
+    !H5Literate(hpid, H5_INDEX_CRT_ORDER, H5_ITER_INC, NULL, compare_children, (void *)&stat)){
+#endif
+    set_error(CHILD_NOT_OF_GIVEN_PARENT, err);
     return;
   }
   if (child_exists(hpid, nname)) {
